@@ -41,7 +41,7 @@ instance (F : DispatchFacts) : Decidable (Conforms F) := by unfold Conforms; inf
 
 theorem route_ne_unknown (F : DispatchFacts) (h : F.wellGated = true) (ty : String) : route F ty ≠ .unknown := by
   simp only [DispatchFacts.wellGated, DispatchFacts.closedWorld, Bool.and_eq_true, List.all_eq_true] at h
-  obtain ⟨⟨⟨⟨⟨⟨⟨⟨⟨⟨hs, ht⟩, hd⟩, _⟩, _⟩, _⟩, _⟩, _⟩, _⟩, _⟩, _⟩ := h
+  obtain ⟨⟨⟨⟨⟨⟨⟨⟨⟨⟨⟨hs, ht⟩, hd⟩, _⟩, _⟩, _⟩, _⟩, _⟩, _⟩, _⟩, _⟩, _⟩ := h
   unfold route
   split
   · simp
@@ -106,12 +106,12 @@ theorem step_notAuth (F : DispatchFacts) (hg : F.wellGated = true) (env : Env σ
     (route F c.ty ≠ .login → (step F env .notAuth sys c).2.1.login = sys.login) := by
   have hu := route_ne_unknown F hg c.ty
   simp only [DispatchFacts.wellGated, Bool.and_eq_true] at hg
-  obtain ⟨⟨⟨⟨⟨⟨⟨⟨⟨_, _⟩, hauth⟩, hsel⟩, hidle⟩, _⟩, _⟩, hany⟩, hlog⟩, hjail⟩ := hg
+  obtain ⟨⟨⟨⟨⟨⟨⟨⟨⟨⟨_, _⟩, hauth⟩, hsel⟩, hidle⟩, _⟩, _⟩, hany⟩, hlog⟩, hjail⟩, hsrc⟩ := hg
   unfold step
   cases hr : route F c.ty
   case unknown => exact absurd hr hu
   case login =>
-    simp only [Proto.user, hlog, hjail, Bool.and_self, Bool.not_true, Bool.false_eq_true, if_false]
+    simp only [Proto.user, hlog, hjail, hsrc, Bool.and_self, Bool.not_true, Bool.false_eq_true, if_false]
     cases hch : chosen c <;> simp
   all_goals simp [Proto.user, hauth, hsel, hidle, hany]
 
@@ -121,7 +121,7 @@ theorem step_notAuth_gated (F : DispatchFacts) (hg : F.wellGated = true) (hc : C
     step F env .notAuth sys c = (.notAuth, sys, .no) := by
   have hr := needsAuth_route F hc c.ty hn
   simp only [DispatchFacts.wellGated, Bool.and_eq_true] at hg
-  obtain ⟨⟨⟨⟨⟨⟨⟨⟨⟨_, _⟩, hauth⟩, hsel⟩, hidle⟩, _⟩, _⟩, _⟩, _⟩, _⟩ := hg
+  obtain ⟨⟨⟨⟨⟨⟨⟨⟨⟨⟨_, _⟩, hauth⟩, hsel⟩, hidle⟩, _⟩, _⟩, _⟩, _⟩, _⟩, _⟩ := hg
   unfold step
   rcases hr with hr | hr | hr <;> simp [hr, Proto.user, hauth, hsel, hidle]
 
@@ -131,7 +131,7 @@ theorem step_auth_selected (F : DispatchFacts) (hg : F.wellGated = true) (hc : C
     step F env (.auth u) sys c = (.auth u, sys, .no) := by
   have hr := needsSelected_route F hc c.ty hn
   simp only [DispatchFacts.wellGated, Bool.and_eq_true] at hg
-  obtain ⟨⟨⟨⟨⟨⟨⟨⟨⟨_, _⟩, _⟩, _⟩, _⟩, _⟩, hsnap⟩, _⟩, _⟩, _⟩ := hg
+  obtain ⟨⟨⟨⟨⟨⟨⟨⟨⟨⟨_, _⟩, _⟩, _⟩, _⟩, _⟩, hsnap⟩, _⟩, _⟩, _⟩, _⟩ := hg
   unfold step
   simp [hr, hsnap]
 
@@ -149,7 +149,7 @@ theorem step_user (F : DispatchFacts) (hg : F.wellGated = true) (env : Env σ) (
     (step F env p sys c).2.1.login = sys.login := by
   have hu := route_ne_unknown F hg c.ty
   simp only [DispatchFacts.wellGated, Bool.and_eq_true] at hg
-  obtain ⟨⟨⟨⟨⟨⟨⟨⟨⟨_, _⟩, _⟩, _⟩, _⟩, hlogin⟩, hsnap⟩, _⟩, _⟩, _⟩ := hg
+  obtain ⟨⟨⟨⟨⟨⟨⟨⟨⟨⟨_, _⟩, _⟩, _⟩, _⟩, hlogin⟩, hsnap⟩, _⟩, _⟩, _⟩, _⟩ := hg
   cases p with
   | notAuth => simp [Proto.user] at hp
   | closed => simp [Proto.user] at hp
